@@ -16,7 +16,8 @@ def run(chk):
         "default_fusion / force_fusion over the whole package; shape of the two dispatch sites; control-independence of the "
         "result bookkeeping; sibling agreement of the three contraction kernels on operand roles and block selection), plus "
         "the index-space rules of engine E3: an operation that addresses legs correctly only when meta, logical-native and "
-        "native index spaces coincide is exactly one that gives different results for lazy/materialised or meta/hard operands.")
+        "native index spaces coincide is exactly one that gives different results for lazy/materialised or meta/hard operands."
+        ' Sequences paired position by position must be enumerated in the same leg order (engine seqorder); per-leg charge slices are aligned to nsym also in the unrolled-contraction code; output positions of an unrolled contraction meet native fields only after the pending permutation was consumed.')
     chk.trusted_base = ["python ast parser", "CFG builder", "seed table of index spaces (sa/props/e3.py)"]
     chk.assumptions = ["numerical equality of the three kernels and of contract_with_unroll paths is not decided"]
     e9.run_N1(chk)
